@@ -69,4 +69,13 @@ PROPS = {
         "faults": ["frag", "delay/reorder-dirs", "backpressure", "handler gate order", "padding counted against the window", "caller cancel (client role)"],
         "probes_expected": ["data-padded"],
     },
+    "C02": {
+        "level": "exploration",
+        "level_text": "Seeded exploration: 1-6 concurrent callers drive the real client connection (http2.Conn: Handshake, Write, Ctx.Err) on a simulated link against a conforming scripted server with an independent codec; requests are buffered or streamed (declared, unknown, zero length, short reads), responses are interleaved, padded, chunked (empty DATA frames included) and HPACK-encoded with seeded representations. Oracle: the server decodes exactly the request given (pseudo-headers, fields minus connection-specific ones, body, END_STREAM once) on odd, strictly increasing stream ids; every caller gets exactly the status, fields and body sent on its own stream.",
+        "level_note": "Raw http2.Conn API with hand-made Ctx values, as the package's own tests use it. ':path' is compared with fasthttp's own reading of the request URI. A response may start before the request ended only for requests without a body (early responses to uploads are exercised by C12). Family c02-split (1/5 of the runs) continues response header blocks in CONTINUATION frames: known finding.",
+        "design_ref": "DESIGN.md §3 C02",
+        "rule": "a run = seeded plan (1-6 requests with bodies of all shapes, scripted responses) under one seeded schedule. Non-trivial: at least 2 requests were in flight together (their lifetimes overlap). Distinct: interleaving hash.",
+        "faults": ["frag", "delay/reorder-dirs", "backpressure", "short reads of body streams", "response interleaving order"],
+        "probes_expected": ["headers-padded", "data-padded", "data-empty"],
+    },
 }
